@@ -65,6 +65,17 @@ theorem isolated_partial (key : List Msg → K)
     (fun c => by simp [isoRuns, ofConv, cacheOf]) c
   simpa [cacheOf, ofConv] using this
 
+/-- Turn-by-turn clients (every request = previous request + previous reply + one new message, starting with
+    a single message — the way chat front-ends and the server's thread store use the API), any number of
+    them, with arbitrary texts — identical conversations included ("hi" / "hi"): injective key ⇒ every
+    interleaving gives every conversation exactly its isolated replay.  `Compatible` is derived, not assumed:
+    in a turn-by-turn conversation the stored events are a function of the message history. -/
+theorem isolated_turn_by_turn (key : List Msg → K) (hinj : ∀ a b, key a = key b → a = b)
+    (conv : Bool → Msg → List Ev) (turn : List Ev → Msg × List Ev) (s : List (Nat × List Msg))
+    (htt : TurnByTurn (isoRuns key conv turn s)) (c : Nat) :
+    ofConv c (runT key conv turn [] s) = runT key conv turn [] (ofConv c s) :=
+  isolated_if_injective key hinj conv turn s (compatible_of_turn_by_turn key conv turn s htt) c
+
 end Cache
 
 /-- The proposed key (`len(role):role len(text):text` per message, every role) is injective on all
@@ -170,6 +181,20 @@ example : Disjoint (isoRuns (fun m : List Msg => m) convC turnW schedW) := by
       have e1 : ¬ (1 = c) := fun e => h1 e.symm
       simp [isoRuns, ofConv, schedW, runT, e0, e1] at hx
 
+/-- non-vacuity: two identical turn-by-turn conversations of two turns (with the witness turn function) -/
+example : TurnByTurn (isoRuns (fun m : List Msg => m) convC turnW
+    [(0, [u ['a']]), (1, [u ['a']]), (1, [u ['a'], a ['b'], u ['x']]), (0, [u ['a'], a ['b'], u ['x']])]) := by
+  intro c
+  by_cases h0 : c = 0
+  · subst h0
+    simp [isoRuns, ofConv, runT, serveStep, ChainedFrom, Step.hist, turnW]
+  · by_cases h1 : c = 1
+    · subst h1
+      simp [isoRuns, ofConv, runT, serveStep, ChainedFrom, Step.hist, turnW]
+    · have e0 : ¬ (0 = c) := fun e => h0 e.symm
+      have e1 : ¬ (1 = c) := fun e => h1 e.symm
+      simp [isoRuns, ofConv, runT, ChainedFrom, e0, e1]
+
 /-! ## LLM parameters -/
 
 open Params
@@ -235,6 +260,30 @@ example :
     let r := enter [(0, some 5), (1, none)] σ0
     (r.1.get 0, r.1.get 1, (exit r.2 r.1).get 0, (exit r.2 r.1).get 1) = (some (some 5), some none, some (some 7), some (some 3)) := by
   decide
+
+/-- Refinement: as long as every altered parameter exists on the LLM object (as an attribute or a key of
+    `model_kwargs`), the mirrored `LLMParams.__enter__/__exit__` working on one shared object behave, for
+    every schedule, exactly like the abstract save/set/restore system (values seen by calls, values a call
+    would see afterwards, saved originals). -/
+theorem concrete_refines_abstract (tasks : Nat → List (Nat × PVal)) (σ0 : Store)
+    (hp : ∀ t, ∀ p ∈ tasks t, Present σ0 p.1) (sched : List (Nat × Act)) :
+    (∀ m, absStore (runSchedC tasks (initC σ0) sched).store m = (runSched tasks (init (absStore σ0)) sched).store m) ∧
+    (runSchedC tasks (initC σ0) sched).calls = (runSched tasks (init (absStore σ0)) sched).calls := by
+  have h := runSchedC_refines tasks σ0 hp sched (initC σ0) (init (absStore σ0))
+    ⟨fun _ => rfl, fun _ => rfl, rfl, fun _ => Iff.rfl, fun _ _ hq => by simp [init] at hq⟩
+  exact ⟨h.store, h.calls⟩
+
+/-- The statement about the mirrored code itself: for every schedule with disjoint or properly nested
+    sections, every LLM call runs with exactly the values its own `llm_params(...)` set, and when no section
+    is open every parameter of the shared LLM object has its configured value again. -/
+theorem params_nested_ok_concrete (tasks : Nat → List (Nat × PVal)) (σ0 : Store)
+    (hnd : ∀ t, ((tasks t).map (·.1)).Nodup) (hp : ∀ t, ∀ p ∈ tasks t, Present σ0 p.1)
+    (sched : List (Nat × Act)) (h : nestedOK [] sched = true) :
+    (∀ n, absStore (runSchedC tasks (initC σ0) sched).store n = absStore σ0 n) ∧
+    (∀ c ∈ (runSchedC tasks (initC σ0) sched).calls, c.2 = tasks c.1) := by
+  obtain ⟨r1, r2⟩ := concrete_refines_abstract tasks σ0 hp sched
+  obtain ⟨a1, a2⟩ := params_nested_ok tasks hnd (absStore σ0) sched h
+  exact ⟨fun n => (r1 n).trans (a1 n), fun c hc => a2 c (r2 ▸ hc)⟩
 
 /-! ## context variables -/
 
